@@ -361,3 +361,7 @@ mod tests {
         ));
     }
 }
+
+#[cfg(all(test, pendulum_project_ntpd_rs_verif))]
+#[path = "/verif/harness/ntpd/hook_daemon__sock_source.rs"]
+mod verif_hook;
